@@ -67,7 +67,14 @@ class Case:
         self.cls = cls
         self.spec = describe.spec_from_class(cls)
         g = gen.Gen(rng, "canonical", big_prob=0.0, max_items=3)
-        self.tree = _stamp(self.spec, g.struct(self.spec), uid)
+        tree = g.struct(self.spec)
+        if rng.random() < 0.2:
+            # a payload beyond typical chunking thresholds (64 KiB; sometimes 1 MiB): failures, reuse and interleavings then also land
+            # inside whatever handles large values differently
+            big = g.huge_payload_trees(self.spec, "len1048577" if rng.random() < 0.1 else "len65537")
+            if big:
+                tree = big[0]
+        self.tree = _stamp(self.spec, tree, uid)
         self.inst = describe.tree_to_instance(self.spec, self.tree)
         self.ref = refcodec.encode_bytes(self.spec, self.tree)
 
